@@ -24,7 +24,7 @@ LEVEL = 'exploration'
 TECHNIQUE = 'bounded exhaustive enumeration of common-subset programs, each compiled (gfortran) and run differentially against the Python class over all period positions and an option lattice'
 RULE = ('programs: every binary operator and max/min over ordered pairs of 6 literal-free leaves, unary/nested contexts, 2-3 equation systems, long equations (30/60 terms), a 40-variable '
         'system, and literal-bearing contexts; per compiled model: evaluate at every t in [-L-1, L], solve_t over t x min_iter x max_iter (incl. 0) x offset x failures x 2 data vectors, '
-        'solve over start/end/offset/failures/max_iter. non-trivial = comparison in which both back-ends ran (or both rejected) for a compiled model')
+        'solve over start/end (None, the falsy label 0, an inner label)/offset/failures/max_iter. non-trivial = comparison in which both back-ends ran (or both rejected) for a compiled model')
 ASSUMPTIONS = [
     'f2py is replaced by a ctypes adaptor with the same call signature (integer vectors passed as given)',
     'values compared to 1e-12 relative (libm vs NumPy exp/log/pow); iteration counts not compared on knife-edge convergence (last step within 4x of tol)',
